@@ -91,6 +91,8 @@ def oracle(filt, allow_nums, trace_nums, default_ret, allnums):
                 return {"arch": arch, "nr": nr, "filter_returns": got, "policy_says": want}
     # a policy never speaks about instruction pointer or argument words: where the filter reads one, no value of it may
     # change the verdict (tried: every constant of the program and its neighbours, in each word the filter reads there)
+    if not any(x[0] == 0x20 and x[3] not in (0, 4) for x in filt):
+        return None          # the filter reads nothing but number and architecture
     ks = set()
     for x in filt:
         ks.update((x[3], (x[3] + 1) & 0xffffffff, (x[3] - 1) & 0xffffffff))
